@@ -14,6 +14,13 @@ POOL = ["a", " a  OR b ", "a AND", "(a", "a^2.5 b~ \"c d\"~3", "f:(x y)", "[1 TO
         "\t-\tx\n", "~", "x^.", "{a TO b]", "a AND b OR c d", "é　ü", "a\\ b", "[a %d]", "x:[10% 20%]", "TO~2", "TO:x", "price:[10 TO", "{a b", "<TO"]
 
 
+DEEP = [("3000 nested parentheses", "(" * 3000 + "a" + ")" * 3000), ("3000 chained NOT", "NOT " * 3000 + "a"), ("2000 nested fields", "f:" * 2000 + "a"),
+        ("3000 chained boosts", "a" + "^1" * 3000), ("a field group with 3000 chained boosts", "f:(a)" + "^1" * 3000), ("3000 chained +", "+" * 3000 + "a"),
+        ("5000 operands of AND", " AND ".join(["a"] * 5000)), ("5000 implicit operands", "a " * 5000), ("3000 open brackets", "[" * 3000),
+        ("1500 nested field groups", "f:(" * 1500 + "a" + ")" * 1500), ("a 5000 digit proximity", '"a b"~' + "1" * 5000), ("a 5000 digit boost", "a^" + "9" * 5000),
+        ("a 100000 character word", "w" * 100000), ("3000 unclosed groups", "(a " * 3000)]
+
+
 def dump(t):
     out = []
 
@@ -79,11 +86,23 @@ def main():
     res = pmap(work, items)
     evaluations = sum(r[0] for r in res)
     failures = [f for r in res for f in r[1]]
+    # totality on deep / long inputs: nothing but a tree or a ParseError, through both entry points
+    from luqum.exceptions import ParseError
+    for name, q in DEEP:
+        for entry in ("parser", "thread"):
+            evaluations += 1
+            try:
+                ENTRY[entry](q)
+            except ParseError:
+                pass
+            except BaseException as e:  # noqa: BLE001
+                failures.append({"sequence": [name], "entries": [entry], "signature": "deep",
+                                 "observation": "%s (%d characters) raised %s instead of a tree or a ParseError" % (name, len(q), type(e).__name__)})
     rest, hit = classify(failures, p.get("known", []))
     emit({"ok": not rest, "evaluations": evaluations, "distinct_nontrivial": len(items),
           "rule": "all sequences of 1..%d parse calls over a pool of %d inputs (valid, invalid, illegal characters, "
                   "malformed numerals, unbalanced delimiters) x all assignments of the two entry points; distinct = "
-                  "distinct (entry-point, input) sequences; every outcome compared with a fresh-interpreter run" % (N, len(POOL)),
+                  "distinct (entry-point, input) sequences; every outcome compared with a fresh-interpreter run; + %d deep / long inputs (thousands of nested or chained constructs) that must give a tree or a ParseError" % (N, len(POOL), len(DEEP)),
           "bound": "sequence length <= %d, pool of %d inputs" % (N, len(POOL)),
           "samples": [{"sequence": ["a AND", " a  OR b "], "entries": ["parser", "thread"]}],
           "failures": rest[:30], "known": hit})
